@@ -35,6 +35,13 @@ class RecCollector(Collector):
         self._log.append((self.model.systems.timestep, self._token))
 
 
+class FalsySystem(RecSystem):
+    """A system whose instances are falsy (defines __len__ like the library's own Agent / Environment classes do)."""
+
+    def __len__(self):
+        return 0
+
+
 class CompA(Component):
     pass
 
